@@ -2,6 +2,8 @@
 
 from __future__ import annotations
 
+import asyncio
+
 from hypothesis import strategies as st
 
 from aiomysensors.model.protocol import get_protocol
@@ -26,6 +28,7 @@ RULE = (
     "with >=2 different reports or a rejected report after an accepted one, or a gate probe within 1 of a table edge."
     ' Round 5: a `probe` op asks the same gateway about the same types repeatedly while its version changes (enumerated for all version pairs).'
     ' Round 6: cases also run with the library at DEBUG (memoised version resolutions forgotten first); `read_error` events (version and rules must survive a failed read).'
+    ' Round 7: node-0 traffic for unknown children (the gateway node owes a presentation) before a new report.'
 )
 ASSUMPTIONS = [
     "spec tables: internal 0-14 (1.4), 0-17 (1.5), 0-28 (2.0, 2.1), 0-33 (2.2); stream 0-5",
@@ -102,6 +105,7 @@ def enumerate_cases(tier: str):
             for mode in ("fresh", "persistent"):
                 ops = ([] if first is None else [["rx", f"0;255;3;0;2;{first}\n"]]) + [["probe", "all"], ["rx", f"0;255;3;0;2;{then}\n"], ["probe", "all"]]
                 yield {"kind": "hist", "listen_mode": mode, "ops": ops}
+                yield {"kind": "hist", "listen_mode": mode, "ops": ops, "tasks": True}
 
 
 _component = st.one_of(st.integers(0, 12), st.integers(0, 12), st.integers(0, 10**6))
@@ -149,8 +153,10 @@ def _hist_ops():
 
 def strategy(tier: str):
     return st.one_of(
-        st.fixed_dictionaries({"kind": st.just("hist"), "listen_mode": st.sampled_from(("fresh", "persistent")), "ops": _hist_ops(), "debug_log": st.sampled_from((False, False, True))}),
-        st.fixed_dictionaries({"kind": st.just("hist"), "listen_mode": st.sampled_from(("fresh", "persistent")), "ops": _hist_ops(), "debug_log": st.sampled_from((False, False, True))}),
+        st.fixed_dictionaries({"kind": st.just("hist"), "listen_mode": st.sampled_from(("fresh", "persistent")), "ops": _hist_ops(), "debug_log": st.sampled_from((False, False, True)),
+                               "tasks": st.sampled_from((False, False, True))}),
+        st.fixed_dictionaries({"kind": st.just("hist"), "listen_mode": st.sampled_from(("fresh", "persistent")), "ops": _hist_ops(), "debug_log": st.sampled_from((False, False, True)),
+                               "tasks": st.sampled_from((False, False, True))}),
         st.fixed_dictionaries(
             {"kind": st.just("map"), "text": st.one_of(release_text, common_release), "via": st.sampled_from(("get_protocol", "reply", "presentation")),
              "debug_log": st.sampled_from((False, False, True))}
@@ -263,7 +269,12 @@ def _run_hist(case: dict) -> Outcome:
         listener = env.Listener(gateway) if case.get("listen_mode") == "persistent" else None
 
         async def deliver(line: str):
-            return await (listener.next(line) if listener else env.rx(gateway, line))
+            coro = listener.next(line) if listener else env.rx(gateway, line)
+            if case.get("tasks"):
+                # every message is handled in a task of its own (what a supervisor restarting its listen task amounts to):
+                # nothing the handlers keep may live in the handling task's context
+                return await asyncio.ensure_future(coro)
+            return await coro
 
         async def probe_rules(where: str, probes) -> Outcome | None:
             reported = gateway.protocol_version
@@ -272,6 +283,21 @@ def _run_hist(case: dict) -> Outcome:
                 return None
             if 1 not in gateway.nodes:
                 env.install_registry(gateway.nodes, {"1": {}})
+            # ... and the HANDLERS in force, by their effects: gateway-ready is answered with a discover broadcast under 2.x only;
+            # a heartbeat response marks the node sleeping under 2.0/2.1, the pre-sleep notification does under 2.2
+            for line, effect in (("0;255;3;0;14;Gateway startup complete.\n", "discover"), ("1;255;3;0;22;5\n", "hb-sleeps"), ("1;255;3;0;32;500\n", "presleep-sleeps")):
+                gateway.nodes[1].sleeping = False
+                before_writes = len(_t.writes)
+                await deliver(line)
+                if effect == "discover":
+                    got_effect = any(w.split(";")[2:5] == ["3", "0", "20"] for _s, w in _t.writes[before_writes:])
+                    want_effect = want.startswith("2")
+                else:
+                    got_effect = bool(gateway.nodes[1].sleeping) if 1 in gateway.nodes else False
+                    want_effect = want in ("2.0", "2.1") if effect == "hb-sleeps" else want == "2.2"
+                if got_effect != want_effect:
+                    return fail(f"handlers-in-force:{effect}:{want}", f"{where}, version {reported!r} (rules {want}): {line!r} {'had' if got_effect else 'did not have'} the effect '{effect}'")
+            gateway.nodes[1].sleeping = False
             for pidx, (cmd, mtype) in enumerate(probes):
                 status, value = await deliver(f"1;255;{cmd};{pidx % 2};{mtype};1\n")
                 outcome = classify(status, value)
